@@ -870,6 +870,11 @@ func (tr *FnTrans) unop(st *BState, x *ssa.UnOp) {
 	v := tr.val(x.X)
 	switch x.Op {
 	case token.MUL:
+		if g, ok := x.X.(*ssa.Global); ok && g.Name() == "init$guard" {
+			// the package initializer runs its body once: that is the run being verified
+			tr.vals[x] = Val{T: "false", Ty: x.Type()}
+			return
+		}
 		tr.safety("nil", "nil dereference in load", st, fmt.Sprintf("(not (= %s nil))", v.T), x.Pos())
 		t := tr.load(st.heap, v.T, x.Type(), st.reach, false)
 		tr.vals[x] = Val{T: tr.smt.define(x.Name(), tr.smt.sortOf(x.Type()), t), Ty: x.Type()}
@@ -2272,6 +2277,9 @@ func (tr *FnTrans) assumeStable(st *BState, before, after *Heap) {
 func (tr *FnTrans) assumeGlobalInvs(guard string, h *Heap) {
 	if tr.fn == nil || tr.fn.Pkg == nil {
 		return
+	}
+	if tr.c != nil && tr.c.IsInit {
+		return // the initializer is what establishes them
 	}
 	pos := tr.fn.Prog.Fset.Position(tr.fn.Pos())
 	invs := tr.eng.globalInvs[filepath.Dir(pos.Filename)]
